@@ -108,7 +108,8 @@ class LoopSpec:
             e = e.parent
         if self.idx_name and self.idx_name in vals:
             vals['idx'] = vals[self.idx_name]
-        vals.update(getattr(I, 'ghost', {}))
+        for k, v in getattr(I, 'ghost', {}).items():
+            vals.setdefault(k, v)
         return vals
 
     def eval_invariants(self, I, env, old_view):
@@ -214,6 +215,22 @@ class Contract:
         return fn
 
 
+class Lemma(Contract):
+    """A lemma over several real code fragments executed in sequence on shared named values.
+
+    steps: list of dicts
+      {'call': 'module:qualname', 'args': [names], 'closure': {name: value}, 'result': name}
+      {'body': 'module:qualname', 'loop': ordinal, 'rename': {local: name}}   -- one arbitrary iteration
+    """
+    def __init__(self, name: str, prop: str, steps: list, inline: tuple = ('*',), note: str = '') -> None:
+        first = steps[0].get('call') or steps[0].get('body') or steps[0].get('stmts')
+        super().__init__(first, prop, name=name, inline=inline, modular=False, note=note)
+        self.steps = steps
+
+    def targets(self) -> list[str]:
+        return [st.get('call') or st.get('body') or st.get('stmts') for st in self.steps]
+
+
 class Harness:
     """Helper handed to `setup` functions: creates symbolic inputs with stable names."""
     def __init__(self, I: Interp) -> None:
@@ -257,6 +274,17 @@ class Harness:
         self.I.path.assume(z3.ForAll([i], z3.Implies(z3.And(i >= 0, i < z3.Length(s.expr)),
                                                      z3.And(s.expr[i] >= 0, s.expr[i] <= 255))))
         return s
+
+    def arr(self, name, length, pytype='array'):
+        """A byte buffer (array('B') / bytearray / memoryview) of the given (symbolic) length."""
+        from .arrays import SArr, BV
+        a = self._reg(name, z3.Array(name, z3.IntSort(), BV))
+        return SArr(a, to_z3(length), pytype)
+
+    def byte(self, name):
+        v = self.bv(name)
+        self.I.path.assume(z3.ULE(v, 255))
+        return v
 
     def obj(self, cls: str, module: str, **fields) -> Obj:
         return Obj(cls, fields, module=module)
@@ -312,7 +340,8 @@ class Registry:
         c = self.contracts.get(key)
         if c is None or c is self.active and I.depth == 0:
             return _MISSING
-        if self.active is not None and (key in self.active.inline or fn.qualname in self.active.inline):
+        if self.active is not None and ('*' in self.active.inline or key in self.active.inline
+                                        or fn.qualname in self.active.inline):
             return _MISSING
         return apply_contract(I, c, fn, args, kwargs, lineno)
 
@@ -400,6 +429,10 @@ def run_paths(registry: Registry, c: Contract, label: str, setup: Callable, max_
         h = Harness(I)
         try:
             spec = setup(h)
+            if isinstance(c, Lemma):
+                run_lemma(I, c, spec, label, path)
+                outcomes.append((npaths, 'lemma', list(path.trace)))
+                raise _LemmaDone()
             args = spec.get('args', [])
             kwargs = spec.get('kwargs', {})
             I.ghost = dict(spec.get('ghost', {}))
@@ -439,7 +472,7 @@ def run_paths(registry: Registry, c: Contract, label: str, setup: Callable, max_
                             goal = to_z3(I.truth(cl.call(I, vals, I.entry_view)))
                             path.oblige(f'{label}.on_raise.{t}.{cl.name}', goal, cl.line)
             outcomes.append((npaths, outcome[0], list(path.trace)))
-        except PathEnd:
+        except (PathEnd, _LemmaDone):
             pass
         except Unsupported as u:
             unsupported.append(str(u))
@@ -453,6 +486,98 @@ def run_paths(registry: Registry, c: Contract, label: str, setup: Callable, max_
         feas_unknown += path.feas_unknown
     return obligations, npaths, unsupported, dict(inlined=inlined, summaries=summaries, feas_unknown=feas_unknown,
                                                   outcomes=outcomes, fnode=fnode, mod=mod)
+
+
+class _LemmaDone(Exception):
+    pass
+
+
+def nth_loop(fnode, ordinal):
+    loops = [n for n in ast.walk(fnode) if isinstance(n, (ast.While, ast.For))]
+    loops.sort(key=lambda n: (n.lineno, n.col_offset))
+    return loops[ordinal]
+
+
+def run_lemma(I: Interp, c: 'Lemma', spec: dict, label: str, path: Path) -> None:
+    vals = dict(spec.get('locals', {}))
+    I.ghost = dict(vals)
+    I.ghost.update(spec.get('ghost', {}))
+    allv = dict(vals)
+    allv.update(I.ghost)
+    for r in c.requires_:
+        path.assume(to_z3(I.truth(r.call(I, allv))))
+    I.entry_view = I.snapshot(list(allv.values()))
+    path.cover(f'{label}.requires_satisfiable', 0)
+    try:
+        for k, st in enumerate(c.steps):
+            target = st.get('call') or st.get('body') or st.get('stmts')
+            module, qualname = target.split(':')
+            mod = extract.load(module)
+            fnode = mod.find(qualname)
+            clo = None
+            if st.get('closure'):
+                clo = Env(None, module)
+                for n, v in st['closure'].items():
+                    clo.vars[n] = vals[v] if isinstance(v, str) and v in vals else v
+            fn = FuncVal(fnode, module, qualname, closure=clo)
+            if 'stmts' in st:
+                # top-level statements [lo:hi] of the function body, on the shared named values
+                lo, hi = st['range']
+                env = Env(clo, module)
+                env.vars.update({k: v for k, v in vals.items()})
+                I.current_fn.append(fn)
+                I.depth += 1
+                try:
+                    I.exec_block(fnode.body[lo:hi], env)
+                finally:
+                    I.depth -= 1
+                    I.current_fn.pop()
+                vals.update(env.vars)
+                continue
+            if 'call' in st:
+                args = [vals[a] if isinstance(a, str) and a in vals else a for a in st.get('args', [])]
+                res = I.call_function(fn, args, {}, fnode.lineno, force_inline=True)
+                if st.get('result'):
+                    vals[st['result']] = res
+            else:
+                loop = nth_loop(fnode, st.get('loop', 0))
+                env = Env(clo, module)
+                rename = st.get('rename', {})
+                names = {n.id for n in ast.walk(loop) if isinstance(n, ast.Name)}
+                for n in names:
+                    src = rename.get(n, n)
+                    if src in vals:
+                        env.vars[n] = vals[src]
+                I.current_fn.append(fn)
+                I.depth += 1
+                try:
+                    if isinstance(loop, ast.For):
+                        tgt = loop.target
+                        tnames = [x.id for x in ast.walk(tgt) if isinstance(x, ast.Name)]
+                        for tn in tnames:
+                            if tn not in env.vars:
+                                raise Unsupported(f'lemma {c.name}: loop variable {tn} not supplied')
+                    else:
+                        if not I.decide(I.eval(loop.test, env)):
+                            raise PathEnd()
+                    I.exec_block(loop.body, env)
+                finally:
+                    I.depth -= 1
+                    I.current_fn.pop()
+                for n, v in env.vars.items():
+                    vals[rename.get(n, n)] = v
+    except PyRaise as pr:
+        exc = pr.exc
+        if not any(I.is_subclass(exc.typ, t) for t in c.raises_):
+            path.oblige(f'{label}.no_unexpected_exception', z3.BoolVal(False), exc.lineno,
+                        note=f'{exc.typ} raised at line {exc.lineno}')
+        return
+    path.cover(f'{label}.end_reachable', 0)
+    allv = dict(vals)
+    allv.update(I.ghost)
+    for e in c.ensures_:
+        goal = to_z3(I.truth(e.call(I, allv, I.entry_view)))
+        path.oblige(f'{label}.ensures.{e.name}', goal, e.line)
 
 
 def frame_obligations(I: Interp, c: Contract, vals: dict, label: str) -> None:
@@ -528,7 +653,7 @@ def verify_contract(registry: Registry, c: Contract, timeout_ms: int = 10000, jo
     mod = fnode = None
     setups = c.setups or [('default', lambda h: {'args': []})]
     for label, setup in setups:
-        lbl = c.name if label in ('setup', 'default', '_') else f'{c.name}[{label}]'
+        lbl = c.name if label in ('setup', 'default', '_', '<lambda>') else f'{c.name}[{label}]'
         obs, n, unsup, meta = run_paths(registry, c, lbl, setup)
         all_obs.extend(obs)
         unsupported.extend(unsup)
@@ -537,6 +662,15 @@ def verify_contract(registry: Registry, c: Contract, timeout_ms: int = 10000, jo
         meta_all['summaries'] |= meta['summaries']
         meta_all['feas_unknown'] += meta['feas_unknown']
         mod, fnode = meta['mod'], meta['fnode']
+    # vacuity guard: every harness must reach the end of the function on some path
+    import z3 as _z3
+    from .symexec import Obligation
+    for label, _ in setups:
+        lbl = c.name if label in ('setup', 'default', '_', '<lambda>') else f'{c.name}[{label}]'
+        ends = [o for o in all_obs if o.kind == 'cover' and o.name in (f'{lbl}.return_reachable', f'{lbl}.end_reachable')]
+        if not ends and not getattr(c, 'may_not_return', False):
+            all_obs.append(Obligation(f'{lbl}.return_reachable', [_z3.BoolVal(False)], _z3.BoolVal(False), 0,
+                                      kind='cover'))
     results = smt.discharge(all_obs, timeout_ms=timeout_ms, jobs=jobs)
     # covers: one satisfiable instance per name is enough; asserts: every instance must be proved
     merged = merge_results(results)
